@@ -1,4 +1,5 @@
 import SafeNet.Driver.Util
+import SafeNet.Base.Sha256
 import SafeNet.Model.Store
 /-!
 Line protocol of the record-store model (`drv_store`), one output line per op line:
@@ -136,6 +137,15 @@ def step (d : DSt) (ws : List String) : DSt × String :=
     match k.toNat?, ds.toNat? with
     | some k, some x => ({ d with dists := insert k x d.dists }, "ok")
     | _, _ => (d, "bad-op")
+  | ["key", k, ds, kb, sb] =>
+    -- the distance with the bytes it is the distance of (record key, this node's peer id): it must be the XOR of
+    -- their SHA-256 digests as the model computes them (`Base/Sha256`); the store's eviction / clean-up / metrics
+    -- decisions are then decisions about that number
+    match k.toNat?, ds.toNat?, unhex kb, unhex sb with
+    | some k, some x, some kb, some sb =>
+      if x = SafeNet.Sha256.hashNat kb ^^^ SafeNet.Sha256.hashNat sb then ({ d with dists := insert k x d.dists }, "ok")
+      else (d, "dist-mismatch")
+    | _, _, _, _ => (d, "bad-op")
   | ["put", k, v, rt] =>
     match k.toNat?, v.toNat?, parseRt rt with
     | some k, some v, some rt => apply d (.put k v rt)
